@@ -111,6 +111,10 @@ func parseClusterNodesSlot(segements []string) ([]int, error) {
 			if err != nil {
 				return nil, errInvalidClusterNodes
 			}
+			// NOTE: never trust the range, it decides how much is allocated.
+			if start < 0 || end >= slotNum || start > end {
+				return nil, errInvalidClusterNodes
+			}
 			for i := start; i <= end; i++ {
 				slots = append(slots, i)
 			}
